@@ -6,6 +6,7 @@ import (
 	"fmt"
 	"strings"
 
+	"github.com/samaritan-proxy/samaritan/host"
 	"github.com/samaritan-proxy/samaritan/verifrt/sched"
 	"github.com/samaritan-proxy/samaritan/verifrt/sim/cluster"
 	"github.com/samaritan-proxy/samaritan/verifrt/sim/resp"
@@ -92,7 +93,7 @@ func init() {
 //           that flag; (a) the other nodes list m1 as suspected ("fail?", it
 //           is alive and owns its slots) from the start; (b) m1 comes back on another address with the same node
 //           id, then the periodic refresh; (c) m1 is listed suspected after the proxy learned the layout, then the
-//           periodic refresh - under both rotations of the refresh's host pick; then every key is read and written
+//           periodic refresh; (d) m1 is dropped from the service's host list while it still owns its slots - under both rotations of the refresh's host pick; then every key is read and written
 // oracle    every command arrives first at the node that owns its slot (at its current address), no node answers
 //           MOVED, replies are the single-server replies
 // ---------------------------------------------------------------------------
@@ -102,7 +103,7 @@ func c12reportedTableBody() {
 	if sched.Choose(sched.ClsInput, 2, "rotation of the random host picks") == 1 {
 		vrand.Intn(2)
 	}
-	hist := []string{"suspected-from-start", "owner-changes-address", "suspected-later", "listed-with-nofailover", "owner-reports-clusterdown"}[sched.Choose(sched.ClsInput, 5, "history")]
+	hist := []string{"suspected-from-start", "owner-changes-address", "suspected-later", "listed-with-nofailover", "owner-reports-clusterdown", "owner-leaves-the-host-list"}[sched.Choose(sched.ClsInput, 6, "history")]
 	cl := cluster.New(2, 0, 4)
 	m0, m1 := cl.Masters()[0], cl.Masters()[1]
 	if hist == "suspected-from-start" {
@@ -126,6 +127,13 @@ func c12reportedTableBody() {
 		sched.AdvanceTime(int64(slotsRefFreq) + 1)
 		sched.WaitQuiescent()
 		s.RefreshRound()
+	case "owner-leaves-the-host-list":
+		// the registry drops m1 from the service's host list; the cluster is what it was, m1 still owns its slots,
+		// and the keys are used right away (before the refresh that the notice asks for has had its turn)
+		// (a refresh has just completed, so the next one waits for the minimum interval between refreshes)
+		s.p.u.triggerSlotsRefresh()
+		sched.WaitQuiescent()
+		s.p.OnSvcHostRemove([]*host.Host{host.New(m1.Addr)})
 	case "suspected-later":
 		m1.Suspected = true
 		sched.AdvanceTime(int64(slotsRefFreq) + 1)
